@@ -110,6 +110,11 @@ def closed(s: PathSummary, e: Optional[ast.AST], before: Optional[int] = None, d
                 if r is not None and (r[1].opaque or (opq is not None and n.id in opq)) and r[1].value is not None and isinstance(r[1].target, ast.Name) \
                         and not (isinstance(r[1].value, ast.Name) and r[1].value.id == n.id) and not any(isinstance(x, ast.Name) and x.id == n.id for x in ast.walk(r[1].value)):
                     return T(self.d - 1).visit(_copy.deepcopy(r[1].value))
+                if r is not None and r[1].value is not None and isinstance(r[1].target, (ast.Tuple, ast.List)) and all(isinstance(x, ast.Name) for x in r[1].target.elts):
+                    # a, b = f(...)  : the name stands for element i of the call's result
+                    i_ = [x.id for x in r[1].target.elts].index(n.id)
+                    if not any(isinstance(x, ast.Name) and x.id == n.id for x in ast.walk(r[1].value)):
+                        return ast.Subscript(value=T(self.d - 1).visit(_copy.deepcopy(r[1].value)), slice=ast.Constant(value=i_), ctx=ast.Load())
             return n
 
         def visit_Lambda(self, n):
